@@ -1432,6 +1432,13 @@ impl PhysicalPlanner {
                                 .fields()
                                 .iter()
                                 .position(|f| f.name().eq_ignore_ascii_case(&c.name))
+                                // the scan-side filter reads the column as Int64
+                                // (build keys are published as i64): an INTEGER
+                                // probe column must not be linked
+                                .filter(|idx| {
+                                    pschema.field(*idx).data_type()
+                                        == &arrow::datatypes::DataType::Int64
+                                })
                                 .filter(|_| std::env::var("RT_DISABLE").is_err())
                                 .map(|idx| {
                                     let slot: crate::physical::operators::SharedRuntimeFilter =
